@@ -12,6 +12,7 @@ import importlib
 import json
 import os
 import random
+import subprocess
 import sys
 import time
 import traceback
@@ -23,15 +24,33 @@ MAX_REPORTED = 4
 SHRINK_BUDGET = 400
 
 
+CaseTimeout = C.CaseTimeout
+
+
+def _case_alarm(signum, frame):
+    raise CaseTimeout()
+
+
+CASE_TIMEOUT = float(os.environ.get("VERIF_CASE_TIMEOUT", "10"))
+
+
 def safe(f, case):
+    import signal
+
+    signal.signal(signal.SIGALRM, _case_alarm)
+    signal.setitimer(signal.ITIMER_REAL, CASE_TIMEOUT)
     try:
         return f(case)
     except C.DriverUnavailable:
         raise
+    except CaseTimeout:
+        return "exc Timeout(>%gs)" % CASE_TIMEOUT
     except BaseException as e:  # the implementation side may raise anything
         if isinstance(e, (KeyboardInterrupt, SystemExit)):
             raise
         return "exc " + C.exc_name(e)
+    finally:
+        signal.setitimer(signal.ITIMER_REAL, 0)
 
 
 class Runner:
@@ -58,7 +77,9 @@ class Runner:
                 lines.append(l)
                 idx.append(i)
         try:
-            outs = C.run_driver(lines)
+            outs = C.run_driver(lines, timeout=1200 if len(cases) > 1 else 20)
+        except subprocess.TimeoutExpired:
+            return [None] * len(cases)  # the model does not finish on this input: no verdict from it
         except C.DriverUnavailable as e:
             self.driver_ok = False
             self.driver_log = str(e)
@@ -90,16 +111,27 @@ class Runner:
         return got != exp, got, exp, who
 
     def shrink(self, case):
+        global CASE_TIMEOUT
         budget = SHRINK_BUDGET
         shr = getattr(self.mod, "shrink", None)
         if shr is None:
             return case
         improved = True
-        while improved and budget > 0:
+        t_end = time.time() + 30  # wall-clock budget of one shrink
+        saved, CASE_TIMEOUT = CASE_TIMEOUT, min(CASE_TIMEOUT, 2.0)
+        try:
+            case = self._shrink_loop(case, shr, budget, t_end)
+        finally:
+            CASE_TIMEOUT = saved
+        return case
+
+    def _shrink_loop(self, case, shr, budget, t_end):
+        improved = True
+        while improved and budget > 0 and time.time() < t_end:
             improved = False
             for cand in shr(case):
                 budget -= 1
-                if budget <= 0:
+                if budget <= 0 or time.time() > t_end:
                     break
                 try:
                     bad, _, _, _ = self.failing(cand)
@@ -181,10 +213,19 @@ def main():
     generated = list(mod.generate(rnd, gen_tier, scale))
     cases = corpus + generated
     impl_outs = []
+    timeouts = 0
+    t_impl_end = time.time() + (150 if tier == "quick" else 1500)
     for c in cases:
+        if time.time() > t_impl_end and len(impl_outs) >= 50:
+            break  # the implementation is far slower than it should be: judge what has been run
         if hasattr(mod, "before_each"):
             mod.before_each(c)
         impl_outs.append(safe(mod.impl, c))
+        if impl_outs[-1].startswith("exc Timeout"):
+            timeouts += 1
+            if timeouts >= 3:  # the implementation hangs on this kind of input: enough to report
+                break
+    cases = cases[: len(impl_outs)]
     model_outs = R.model_batch(cases)
 
     # 4. classification
@@ -410,16 +451,20 @@ def replay(R, path):
     return 0
 
 
-def _watchdog(signum, frame):
-    print("TIMEOUT: check exceeded its wall-clock budget (infrastructure problem, not a verdict)")
-    os._exit(2)
+def _watchdog(limit):
+    import threading
+
+    def fire():
+        print("TIMEOUT: check exceeded its wall-clock budget of %ds (infrastructure problem, not a verdict)" % limit, flush=True)
+        os._exit(2)
+
+    t = threading.Timer(limit, fire)
+    t.daemon = True
+    t.start()
 
 
 if __name__ == "__main__":
-    import signal
-
-    signal.signal(signal.SIGALRM, _watchdog)
-    signal.alarm(int(os.environ.get("VERIF_TIMEOUT", "1500" if "thorough" not in " ".join(sys.argv) else "5400")))
+    _watchdog(int(os.environ.get("VERIF_TIMEOUT", "1500" if "thorough" not in " ".join(sys.argv) else "5400")))
     try:
         sys.exit(main())
     except SystemExit:
